@@ -127,10 +127,14 @@ def run(ctx):
             lo = rng.choice([0, -D // 2, rng.randint(0, 3 * D), 5 * D + D // 2, D // 2, 2 * D + D // 2, -D - D // 2])
             box.append((lo, lo + rng.choice([D, 4 * D, rng.randint(1, 5 * D), 3 * D + D // 2, 2 * D, 2 * D + D // 2, 5 * D])))
         bb = tuple((lo / D, hi / D) for lo, hi in box)
-        own = rng.random() < 0.5
+        mode = rng.choice(["own", "arg", "both"])      # both: the WCS has a different box of its own, the one passed in must be used
+        own = mode == "own"
         center = rng.random() < 0.5
         if own:
             w.bounding_box = bb[0] if n == 1 else bb
+        elif mode == "both":
+            decoy = tuple((40.0 + i, 47.0 + 2 * i) for i in range(n))
+            w.bounding_box = decoy[0] if n == 1 else decoy
         if all_spatial and n != 2:
             # _order_clockwise only makes sense for 2 axes; the code applies it to any all-spatial frame
             continue
@@ -150,13 +154,13 @@ def run(ctx):
         got_set = sorted(set(tuple(float(v) / D for v in row) for row in got))
         if got_set != want_set:
             problems.append((f"footprint(center={center}) of the identity WCS with box {bb} uses corners {got_set}, the box corners"
-                             f"{' moved to pixel centres' if center else ''} are {want_set}", {"n": n, "types": types, "box": bb, "center": center}, None))
+                             f"{' moved to pixel centres' if center else ''} are {want_set}", {"n": n, "types": types, "box": bb, "center": center, "box_given": mode}, None))
         terms_f.append(f"({gbool(all_spatial and n == 2)}, {gbool(center)}, " + glist([f"({gz(a)}, {gz(b)})" for a, b in box]) + ", " +
                        glist([gzl(r) for r in got]) + ")")
         meta_f.append((n, types, bb, center, [[v / D for v in r] for r in got]))
-        ctx.case(key=("fp", n, tuple(types), tuple(box), center, own), nontrivial=any(a % D or b % D for a, b in box) or center,
+        ctx.case(key=("fp", n, tuple(types), tuple(box), center, mode), nontrivial=any(a % D or b % D for a, b in box) or center,
                  kind=f"footprint{n}d/{'spatial' if all_spatial else 'mixed'}",
-                 sample={"axes": n, "types": types, "box": bb, "center": center, "own_box": own, "corners": [[v / D for v in r] for r in got][:4]})
+                 sample={"axes": n, "types": types, "box": bb, "center": center, "box_given": mode, "corners": [[v / D for v in r] for r in got][:4]})
     ff = ctx.coq_failing("fp", HEADER, terms_f,
                          f"(fun c => match c with (sp2, ce, bb, got) => check_corners sp2 ce {D} bb got end)")
     ctx.oblige("correspondence: corner list model (order, centring) = the points footprint feeds to the transform", ff == [],
